@@ -9,7 +9,7 @@
 // "facets_inside.size() == sigma.size() - 1" (l.206). A stored simplex that contains v and sigma\{v} (that is: contains
 // sigma) records v as well, the set has sigma.size() elements, and the function answers false.
 //
-// Build: g++ -std=gnu++17 -O1 -g -fsanitize=address,undefined -I/tmp/seed/P16/src/Toplex_map/include defect_6.cpp -o defect_6
+// Build: g++ -std=gnu++17 -O1 -g -fsanitize=address,undefined -I/repo/src/Toplex_map/include defect_6.cpp -o defect_6
 #include <gudhi/Lazy_toplex_map.h>
 #include <cstdio>
 #include <vector>
